@@ -86,6 +86,9 @@ def run_prop(prop, tier, seed, replay=None, make_cases=None):
         # stream of the cases above is what it was before the kind existed
         rng2 = random.Random(seed + 10)
         cases += [gp.gen_case(rng2, 'twokeys_mix', idx=i) for i in range(6 if tier == 'quick' else 84)]
+    if not make_cases and prop == 'C04':
+        rng2 = random.Random(seed + 10)
+        cases += [gp.gen_case(rng2, 'refmut_overlap', idx=i) for i in range(6 if tier == 'quick' else 18)]
     spell = ['?Sized', '?core::marker::Sized', '?Sized', '?::core::marker::Sized', '?std::marker::Sized']
     for i, c in enumerate(cases):
         for bi, b in enumerate(c.blocks):
